@@ -48,7 +48,7 @@ def confirm(pid, diff, demo, out):
         if demo:
             for tag, lib in (("mutant", wt + "/_build"), ("baseline", "/repo/_build")):
                 exe = "/tmp/mv/demo_%s_%s_%d" % (pid, tag, os.getpid())
-                rc, o = sh("gcc -O1 -g -I %s/include %s -o %s -L %s -lnng -lpthread -Wl,-rpath,%s" % (wt, demo, exe, lib, lib))
+                rc, o = sh("gcc -O1 -g -D_GNU_SOURCE -I %s/include %s -o %s -L %s -lnng -lpthread -Wl,-rpath,%s" % (wt, demo, exe, lib, lib))
                 if rc != 0:
                     res["demo_" + tag] = {"rc": -1, "out": "compile failed: " + o[-400:]}
                     continue
